@@ -746,3 +746,228 @@ pub fn run_witness(params: &Params) -> String {
         Ok(Ok(())) => format!("witness {}", body),
     }
 }
+
+// ---------- directed scenario: lock-slot collision inside one scan batch while a push-before-delete is in flight ----------
+fn colliding_keys(n: usize) -> Vec<Vec<u8>> {
+    use std::collections::HashMap;
+    use undermoon::common::utils::generate_lock_slot;
+    let mut by_slot: HashMap<usize, Vec<Vec<u8>>> = HashMap::new();
+    let mut i = 0u64;
+    loop {
+        let k = format!("c{}", i).into_bytes();
+        i += 1;
+        if generate_slot(&k) > 8191 {
+            continue;
+        }
+        let e = by_slot.entry(generate_lock_slot(&k)).or_default();
+        e.push(k);
+        if e.len() >= n {
+            let mut v = e.clone();
+            v.sort(); // the stand-in's SCAN returns a bucket in byte order
+            return v;
+        }
+    }
+}
+
+pub fn run_collide(params: &Params) -> String {
+    use crate::net::Gate;
+    let kind = params.str("kind", "del");
+    let n = params.u64("n", 2).max(2).min(4) as usize;
+    let target = (params.u64("target", (n - 1) as u64) as usize).min(n - 1);
+    let conns = params.u64("conns", 1).max(1).min(8) as usize;
+    let active = params.u64("active", 0) != 0;
+    let wait_ms = params.u64("wait_ms", 150);
+    let out = params.str("out", "");
+    let timeout_ms = params.u64("timeout_ms", 60_000);
+    if out.is_empty() {
+        return "collide setup-error missing-out".to_string();
+    }
+    if kind != "del" && kind != "sdiffstore" {
+        return format!("collide setup-error unknown-kind-{}", kind);
+    }
+    let keys = colliding_keys(n);
+    let d = keys[target].clone();
+    let (cmd, read): (Vec<Vec<u8>>, Vec<Vec<u8>>) = if kind == "del" {
+        (vec![b("DEL"), d.clone()], vec![b("GET"), d.clone()])
+    } else {
+        (
+            vec![b("SDIFFSTORE"), d.clone(), b("zz-nokey1"), b("zz-nokey2")],
+            vec![b("SMEMBERS"), d.clone()],
+        )
+    };
+    let topo = Topo {
+        lo: 0,
+        hi: 8191,
+        scan_count: params.u64("scan_count", 10).max(1),
+        scan_interval: params.u64("scan_interval", 500),
+    };
+    let pool = build_pool(&topo, 8, 0, false);
+    let mut inkeys = pool.in_str.clone();
+    inkeys.extend(keys.iter().cloned());
+    let setkeys = if kind == "del" { vec![] } else { vec![d.clone()] };
+    let meta = meta_json(0, params, &topo, &inkeys, &[], &setkeys);
+
+    let world = World::new(0, 0, false, 1, None); // ONE bucket: the whole range is one SCAN batch
+    let max = Duration::from_secs(10);
+    let g_scan = Gate::new(0, 0, "SCAN", vec![], max);
+    let g_pttl = Gate::new(0, 0, "PTTL", d.clone(), max);
+    let g_restore = Gate::new(0, 1, "RESTORE", d.clone(), max);
+    {
+        let mut g = world.gates.lock();
+        g.push(g_scan.clone());
+        g.push(g_pttl.clone());
+        g.push(g_restore.clone());
+    }
+    let sh = Shared::new();
+    let rt = new_runtime();
+    let result: Arc<parking_lot::Mutex<(String, String)>> =
+        Arc::new(parking_lot::Mutex::new(("-".to_string(), "-".to_string())));
+
+    let scenario = {
+        let world = world.clone();
+        let sh = sh.clone();
+        let result = result.clone();
+        let kind = kind.clone();
+        let keys = keys.clone();
+        let d = d.clone();
+        let (g_scan, g_pttl, g_restore) = (g_scan.clone(), g_pttl.clone(), g_restore.clone());
+        async move {
+            new_proxy(&world, 0, conns, active);
+            new_proxy(&world, 1, conns, active);
+            for p in 0..2 {
+                let r = deliver_logged(&world, &topo, p, 1).await;
+                if r != "S 4f4b" {
+                    return Err(format!("epoch1-{}-{}", PROXY_NAME[p], r.replace(' ', "_")));
+                }
+            }
+            for k in keys.iter() {
+                if kind != "del" && *k == d {
+                    preload(&world, vec![b("SADD"), k.clone(), b("a")]);
+                } else {
+                    let mut v = b"init-".to_vec();
+                    v.extend_from_slice(k);
+                    preload(&world, vec![b("SET"), k.clone(), v]);
+                }
+            }
+            for k in pool.in_str.iter() {
+                let mut v = b"init-".to_vec();
+                v.extend_from_slice(k);
+                preload(&world, vec![b("SET"), k.clone(), v]);
+            }
+            let poll = tokio::spawn(poller(world.clone(), sh.clone()));
+            sh.epoch2_delivered.store(true, Ordering::SeqCst);
+            for p in [1usize, 0usize] {
+                let r = deliver_logged(&world, &topo, p, 2).await;
+                if r != "S 4f4b" {
+                    return Err(format!("epoch2-{}-{}", PROXY_NAME[p], r.replace(' ', "_")));
+                }
+            }
+            let wait_for = |g: Arc<Gate>, ms: u64| async move {
+                let start = std::time::Instant::now();
+                while !g.holding.load(Ordering::SeqCst) && start.elapsed() < Duration::from_millis(ms) {
+                    tokio::time::sleep(Duration::from_millis(1)).await;
+                }
+                g.holding.load(Ordering::SeqCst)
+            };
+            // 1. the scanner is about to read its first batch (source in Scanning, destination serving)
+            wait_for(g_scan.clone(), 20_000).await;
+            // 2. the deleting command through the destination proxy; its UMSYNC takes the slot lock on the source proxy
+            let mut task = {
+                let world = world.clone();
+                let sh = sh.clone();
+                let cmd = cmd.clone();
+                tokio::spawn(async move { client_op(&world, &sh, 1, cmd, 1, Duration::from_secs(30)).await })
+            };
+            wait_for(g_pttl.clone(), 3_000).await;
+            // 3. the scan batch runs while the push path owns the lock slot
+            g_scan.release();
+            let scanner_touched = wait_for(g_restore.clone(), wait_ms).await;
+            if !scanner_touched {
+                g_restore.disarm();
+            }
+            // 4. the push path finishes, the command is applied on the destination and acknowledged
+            g_pttl.release();
+            let reply = match tokio::time::timeout(Duration::from_secs(20), &mut task).await {
+                Ok(r) => r.ok(),
+                Err(_) => None,
+            };
+            {
+                let mut g = result.lock();
+                g.0 = match reply {
+                    Some((r, _)) => resp_to_string(&r),
+                    None => "none".to_string(),
+                };
+            }
+            // 5. whatever the scanner still holds is let go
+            g_restore.release();
+            wait_switch_committed(&sh).await;
+            for p in [1usize, 0usize] {
+                deliver_logged(&world, &topo, p, 3).await;
+            }
+            sh.commit_done.store(true, Ordering::SeqCst);
+            let (r, _) = client_op(&world, &sh, 2, read.clone(), 1, Duration::from_secs(30)).await;
+            {
+                let mut g = result.lock();
+                g.1 = resp_to_string(&r);
+            }
+            for k in keys.iter() {
+                if *k != d {
+                    client_op(&world, &sh, 2, vec![b("GET"), k.clone()], 1, Duration::from_secs(30)).await;
+                }
+            }
+            tokio::time::sleep(Duration::from_millis(50)).await;
+            sh.stop_poller.store(true, Ordering::SeqCst);
+            let _ = poll.await;
+            log_final(&world);
+            Ok(())
+        }
+    };
+
+    let res = rt.block_on(async { tokio::time::timeout(Duration::from_millis(timeout_ms), scenario).await });
+    sh.stop_poller.store(true, Ordering::SeqCst);
+    for g in [&g_scan, &g_pttl, &g_restore] {
+        g.disarm();
+        g.release();
+    }
+    if res.is_err() {
+        log_final(&world);
+    }
+    let written = world.write_trace(&out, meta);
+    world.clear_handlers();
+    rt.shutdown_background();
+    if let Err(e) = written {
+        return format!("collide setup-error trace-write-{}", e.replace(' ', "_"));
+    }
+    let has = |node: usize| -> u8 {
+        let s = world.nodes[node].store.lock();
+        if s.map.contains_key(&d) {
+            1
+        } else {
+            0
+        }
+    };
+    let (cmd_reply, final_read) = {
+        let g = result.lock();
+        (g.0.clone(), g.1.clone())
+    };
+    let f = |g: &Arc<Gate>| if g.was_held.load(Ordering::SeqCst) { '1' } else { '0' };
+    let body = format!(
+        "kind={} n={} target={} cmd_reply={} gates={}{}{} final_read={} dst_has_key={} src_has_key={} trace={}",
+        kind,
+        n,
+        target,
+        cmd_reply,
+        f(&g_scan),
+        f(&g_pttl),
+        f(&g_restore),
+        final_read,
+        has(1),
+        has(0),
+        out
+    );
+    match res {
+        Err(_) => format!("collide timeout {}", body),
+        Ok(Err(msg)) => format!("collide setup-error {}", msg),
+        Ok(Ok(())) => format!("collide {}", body),
+    }
+}
